@@ -2,8 +2,8 @@ package main
 
 import (
 	"bytes"
-	ejson "encoding/json"
 	"encoding/hex"
+	ejson "encoding/json"
 	"fmt"
 	"math"
 	"math/big"
@@ -353,6 +353,49 @@ func genTranscode(g *G, tier string, emit func(string)) {
 		emitC(item)
 		emit("j2c " + hexOrDash([]byte(`["é`+val+`","ü"]`))) // non-ASCII, through the command-line converters as well
 	}
+	// definite-length containers nested past every growth step of the decoder's bookkeeping (10, 20, 40 open
+	// containers), each level followed by a sibling, so that a lost count re-nests the document
+	for depth := 1; depth <= 45; depth++ {
+		for shape := 0; shape < 3; shape++ {
+			var item []byte
+			for d := 0; d < depth; d++ {
+				switch {
+				case shape == 0 || (shape == 2 && d%2 == 0):
+					item = append(item, 0x82) // [ <nested>, d ]
+				default:
+					item = append(item, 0xa2, 0x61, 'n') // { "n": <nested>, "s": d }
+				}
+			}
+			item = append(item, 0x80)
+			for d := depth - 1; d >= 0; d-- {
+				if shape == 0 || (shape == 2 && d%2 == 0) {
+					item = append(item, 0x18, byte(d))
+				} else {
+					item = append(item, 0x61, 's', 0x18, byte(d))
+				}
+			}
+			emitC(item)
+			emitC(append(append([]byte{}, item...), 0x01)) // more data follows
+		}
+	}
+	// every escape class of the JSON string printer with ordinary text before, between and after: quotes,
+	// backslash, controls, U+2028 / U+2029 (escaped unconditionally), invalid UTF-8, as values and as keys
+	specials := []string{"\u2028", "\u2029", "\"", "\\", "\n", "\u0001", "\u007f", "é", "😀", "\u00ad", "\ufeff"}
+	unq := func(e string) string { var r string; json2go(e, &r); return r }
+	for _, a := range specials {
+		for _, b := range specials {
+			for _, pat := range []string{"head%stail", "%s", "h%s", "%st", "h%s%st", "%sm%s", "hh%smm%stt"} {
+				str := strings.Replace(strings.Replace(pat, "%s", unq(a), 1), "%s", unq(b), 1)
+				var item []byte
+				item = append(item, 0xa1)
+				item = appendCborText(item, str)
+				item = append(item, 0x82)
+				item = appendCborText(item, str)
+				item = appendCborText(item, "z")
+				emitC(item)
+			}
+		}
+	}
 	for major := 0; major < 8; major++ {
 		for ai := 28; ai <= 31; ai++ {
 			h := byte(major<<5 | ai)
@@ -518,4 +561,26 @@ func canonJSONText(text []byte) string {
 		return "?"
 	}
 	return rec()
+}
+
+// json2go reads a JSON string literal body written with \u escapes (generator-side helper: Go's strconv, not refmt).
+func json2go(esc string, out *string) {
+	r, err := strconv.Unquote(`"` + esc + `"`)
+	if err != nil {
+		r = esc
+	}
+	*out = r
+}
+
+func appendCborText(item []byte, s string) []byte {
+	n := len(s)
+	switch {
+	case n < 24:
+		item = append(item, 0x60|byte(n))
+	case n < 256:
+		item = append(item, 0x78, byte(n))
+	default:
+		item = append(item, 0x79, byte(n>>8), byte(n))
+	}
+	return append(item, s...)
 }
